@@ -20,7 +20,7 @@ w("""* **Oracle for SQL semantics.** The planned Python reference interpreter wa
   **sidecar scheduler** (`qe-native/src/c20.rs`, C20): virtual processes as threads parked at hook points H4, one mover at a time, depth-first up to a preemption bound, fresh directory per schedule;
   **history explorers**: C15 (BFS over Membership operation histories on the real object), C17 (BFS over Iceberg table histories through a writer the harness implements), C19 (all write/query/rewrite/query histories across three long-lived engine processes);
   **nodes** (`qe-native/src/nodes.rs`, C34/C35): real `serve` nodes spawned in-process on ephemeral ports.
-* **Bounds.** Quick tiers were cut to stay under about a minute on a loaded 16-core box; every evidence file states the bound actually run in `coverage.rule`, whether it was exhaustive within it, and any cap hit (`caps_hit`). Thorough tiers raise row counts, depth, preemption bounds and graph sizes; they are not sampled either, with two stated exceptions: C19 depth-3 histories (complete for same-actor reuse chains, every 5th otherwise) and C32 n=7 (identity and reversed FROM order only).
+* **Bounds.** Quick tiers were cut to stay under about a minute on a loaded 16-core box; every evidence file states the bound actually run in `coverage.rule`, whether it was exhaustive within it, and any cap hit (`caps_hit`). Thorough tiers raise row counts, depth, preemption bounds and graph sizes; they are not sampled either, with two stated exceptions: C19 depth-3 histories (complete for same-actor reuse chains, every 50th otherwise) and C32 n=7 (identity and reversed FROM order only).
 * **Not built from the plan:** real multi-process sidecar races (sampling; replaced by the virtual-process explorer), pyarrow as a second Flight client family (not installed), files above 400 MB (gates opened through hooks H1/H2 instead), a Lance/indexed vector provider (the default build has none; C43 checks only that Indexed mode falls back).
 """)
 w("### 7.2 Status per property\n")
